@@ -3,7 +3,7 @@
 From Coq Require Import List Arith NArith ZArith Bool String.
 From Coq.Strings Require Import Byte.
 From Peppi Require Import Base.Bytes Base.Outcome Gen.Funs Model.Ubjson Model.Start Model.Parse Model.Reader Model.Writer Model.Recorder
-  Proofs.FrameStep Proofs.TableFacts Proofs.ReadProof Proofs.WriteProof Proofs.Corollaries Proofs.C08Proof Proofs.Irregular Proofs.Permute Proofs.Irregular2.
+  Proofs.FrameStep Proofs.TableFacts Proofs.ReadProof Proofs.WriteProof Proofs.Corollaries Proofs.C08Proof Proofs.Irregular Proofs.Permute Proofs.Irregular2 Proofs.IrregularCheck.
 Import ListNotations.
 
 (* for the game g of EVERY well-formed replay (Game End and metadata present or missing): the written file is
@@ -79,6 +79,15 @@ Theorem C17_reordered_nonvacuous : forall r st l1 a b l2,
   wf_irreg2 r st {| ig_extra := []; ig_events := l1 ++ (Event_FramePost, b) :: (Event_Item, a) :: l2; ig_junk := [] |}.
 Proof. exact wf_irreg2_item_post. Qed.
 
+(* the class is decidable from the inside: wf_irreg2_b is an executable test (extracted and run on every generated
+   irregular stream of the correspondence run) and it is sound for the class of the theorems above *)
+Theorem C17_checked_class : forall r st x h,
+  wf_replay r = true -> game_start (r_start r) = ROk st -> wf_irreg2_b r st x = true ->
+  slp_read {| o_skip := false; o_hash := h |} (emit_irr r x)
+  = Ok (with_hashed (game_of {| o_skip := false; o_hash := h |} r st (end_of r))
+                    (if h then Some (List.length (emit_irr r x)) else None), []).
+Proof. exact read_irregular_checked. Qed.
+
 (* the canonical rendering is an instance (non-vacuity of wf_irreg) *)
 Theorem C17_irregular_nonvacuous : forall r st,
   wf_replay r = true -> game_start (r_start r) = ROk st ->
@@ -89,6 +98,7 @@ Print Assumptions C17_fixed_point.
 Print Assumptions C17_irregular_read.
 Print Assumptions C17_irregular_fixed_point.
 Print Assumptions C17_irregular_nonvacuous.
+Print Assumptions C17_checked_class.
 Print Assumptions C17_reordered_read.
 Print Assumptions C17_reordered_fixed_point.
 Print Assumptions C17_reordered_nonvacuous.
